@@ -300,14 +300,14 @@ func timerDiscipline(p *Prog, r *Report, R string, filter func(rel string) bool)
 			if nilTest != nil {
 				tgt = nilTest
 			}
-			okAll, where := p.everyPathOr(tgt, func(ret *ssa.Return) bool {
+			okAll, where := p.everyPathOrEdge(tgt, func(ret *ssa.Return) bool {
 				for _, g := range p.GuardStrings(ret) {
 					if strings.HasSuffix(g, ".closed") && !strings.HasPrefix(g, "!") {
 						return true
 					}
 				}
 				return false
-			})
+			}, p.closedEdge)
 			// a Stop that lives in a private helper: the helper is called on every path too
 			if okAll && p.FuncName(p.closureHome(ts.fn)) != row.teardown {
 				nsite := 0
@@ -327,14 +327,14 @@ func timerDiscipline(p *Prog, r *Report, R string, filter func(rel string) bool)
 							okAll, where = false, p.InstrPos(ed.Site)+" (the helper that stops it is called only under "+extra+")"
 							continue
 						}
-						if o, w := p.everyPathOr(ed.Site.Block(), func(ret *ssa.Return) bool {
+						if o, w := p.everyPathOrEdge(ed.Site.Block(), func(ret *ssa.Return) bool {
 							for _, g := range p.GuardStrings(ret) {
 								if strings.HasSuffix(g, ".closed") && !strings.HasPrefix(g, "!") {
 									return true
 								}
 							}
 							return false
-						}); !o {
+						}, p.closedEdge); !o {
 							okAll, where = false, w
 						}
 					}
@@ -352,6 +352,25 @@ func timerDiscipline(p *Prog, r *Report, R string, filter func(rel string) bool)
 // everyPathOr: every path from the entry of target's function to a return passes through
 // target, except returns accepted by okRet.  Returns the position of an offending return.
 func (p *Prog) everyPathOr(target *ssa.BasicBlock, okRet func(*ssa.Return) bool) (bool, string) {
+	return p.everyPathOrEdge(target, okRet, nil)
+}
+
+// closedEdge: the k-th way out of b is taken only when the object is already closed
+// (`if x.closed {…}` true side, `if !x.closed {…}` false side): single-exit functions reach
+// their one return along it.
+func (p *Prog) closedEdge(b *ssa.BasicBlock, k int) bool {
+	if len(b.Instrs) == 0 {
+		return false
+	}
+	iff, ok := b.Instrs[len(b.Instrs)-1].(*ssa.If)
+	if !ok {
+		return false
+	}
+	s := NormAtom(iff.Cond, k == 0)
+	return strings.HasSuffix(s, ".closed") && !strings.HasPrefix(s, "!")
+}
+
+func (p *Prog) everyPathOrEdge(target *ssa.BasicBlock, okRet func(*ssa.Return) bool, okEdge func(b *ssa.BasicBlock, k int) bool) (bool, string) {
 	fn := target.Parent()
 	seen := map[*ssa.BasicBlock]bool{}
 	where := ""
@@ -370,7 +389,10 @@ func (p *Prog) everyPathOr(target *ssa.BasicBlock, okRet func(*ssa.Return) bool)
 				return true
 			}
 		}
-		for _, s := range b.Succs {
+		for k, s := range b.Succs {
+			if okEdge != nil && okEdge(b, k) {
+				continue
+			}
 			if escapes(s) {
 				return true
 			}
